@@ -304,6 +304,8 @@ type faultWriter struct {
 	limit   int
 	once    bool
 	tripped bool
+	// fullCount: the failing write returns len(p) with the error
+	fullCount bool
 }
 
 func (w *faultWriter) Write(p []byte) (int, error) {
@@ -315,6 +317,11 @@ func (w *faultWriter) Write(p []byte) (int, error) {
 	if len(p) > room {
 		w.buf = append(w.buf, p[:room]...)
 		w.tripped = true
+		if w.fullCount {
+			// a writer that reports the error together with the full count (a tee, a mirror, a quota
+			// writer may): the error is what counts
+			return len(p), errFault
+		}
 		return room, errFault
 	}
 	w.buf = append(w.buf, p...)
@@ -463,7 +470,7 @@ func genC03(r *Rng, e *Emitter, n int) {
 			}
 			e.tally("op=writer-fault")
 			e.emit("C03.wfault", fmt.Sprintf("(%s %d %s %d)", c.name, ndr, t.sx(), lim), guard(func() string {
-				w := &faultWriter{limit: lim, once: lim%2 == 1}
+				w := &faultWriter{limit: lim, once: lim%2 == 1, fullCount: lim%3 == 2}
 				err := c.write(w, bo, g)
 				return fmt.Sprintf("(%v %s)", err != nil, hexOrDash(w.buf))
 			}))
